@@ -1,10 +1,13 @@
 package main
 
 import (
+	"bytes"
 	"encoding/hex"
 	"fmt"
+	"io"
 	"strconv"
 	"strings"
+	"testing/iotest"
 
 	"github.com/muktihari/fit/kit/hash/crc16"
 )
@@ -20,6 +23,7 @@ func init() {
 func execCrc(args []string) string {
 	h := crc16.New()
 	var out []string
+	wi := 0
 	for _, a := range args {
 		switch {
 		case strings.HasPrefix(a, "w:"):
@@ -27,7 +31,26 @@ func execCrc(args []string) string {
 			if err != nil {
 				return "bad-op"
 			}
-			n, err := h.Write(b)
+			// "however they are written": the bytes reach the hash through Write, io.WriteString or io.Copy
+			// (sources that deliver the last data together with io.EOF, or byte by byte); on a hash.Hash16
+			// without further methods all of these end in Write, and must keep doing so if WriteString /
+			// ReadFrom fast paths are ever added (seeded changes C18-2, C18-3)
+			var n int
+			switch (wi + len(b)) % 4 {
+			case 0:
+				n, err = h.Write(b)
+			case 1:
+				n, err = io.WriteString(h, string(b))
+			case 2:
+				var m int64
+				m, err = io.Copy(h, struct{ io.Reader }{iotest.DataErrReader(bytes.NewReader(b))})
+				n = int(m)
+			default:
+				var m int64
+				m, err = io.Copy(h, struct{ io.Reader }{iotest.OneByteReader(bytes.NewReader(b))})
+				n = int(m)
+			}
+			wi++
 			if n != len(b) || err != nil {
 				out = append(out, "werr")
 			}
